@@ -36,7 +36,11 @@ int_t @p@lacon_(int_t *n, @T@ *v, @T@ *x, int_t *isgn, @R@ *est, int_t *kase)
   }
   __CPROVER_havoc_slice(x, (size_t)(*n) * sizeof(@T@));
   __CPROVER_havoc_slice(v, (size_t)(*n) * sizeof(@T@));
-  if (nondet_bool()) { @R@ e = nondet_real(); __CPROVER_assume(e == e && EST_OK); *est = e; }
+  if (nondet_bool()) { @R@ e = nondet_real(); 
+#define V e     /* EST_OK (variant parameter) restricts the value V of the estimate */
+    __CPROVER_assume(e == e && EST_OK);
+#undef V
+    *est = e; }
   g_est = *est;
   int_t k = nondet_int_t(); __CPROVER_assume(0 <= k && k <= 2);
   if (g_lacon_calls >= MAXROUNDS) k = 0;      /* the estimator stops after at most MAXROUNDS products (see "assumptions") */
